@@ -187,6 +187,14 @@ Definition setitem_fix (d : dd) (k : dkey) (v : V) : dd :=
   mkDD (mem_set k v (dd_mem d)) (dd_dir d)
        (if dd_dir d then run_ops (setitem_ops_fix k v) (dd_fs d) else dd_fs d).
 
+(* shutil.move(tmp, fname) with the temporary file on ANOTHER file system (e.g. the system temp
+   directory): no rename is possible, the move degrades to "open-truncate the destination; write
+   the chunks; close; unlink the source".  The source is not part of the cache directory, so
+   inside the cache directory the writer performs exactly the in-place sequence *)
+Definition setitem_ops_movex (k : dkey) (v : V) : list op :=
+  let p := kpath k in
+  mkdir_ops p ++ [OpenTrunc p] ++ map (fun b => Append p [b]) (encode v).
+
 Definition getitem_fix (max_retries : nat) (d : dd) (k : dkey) : res V * dd :=
   match mem_get k (dd_mem d) with
   | Some v => (Ok v, d)
